@@ -18,6 +18,10 @@ def reg_cases(draw, max_nodes=8, max_ops=6, faults=True, det_share=15, min_runs=
     while len(g.nodes) < n:
         g.add_any()
     nodes = g.nodes
+    for nd in nodes:
+        # a pure source whose store is a (logging) subclass of the bundled LiteralSource
+        if nd["k"] == "src" and specs.src_kind(nd) == "pure" and not nd.get("foreign") and draw(st.integers(0, 5)) == 0:
+            nd["litsrc"] = True
     if falsy:
         for nd in nodes:
             if (nd["k"] == "src" and not nd.get("alias") and not nd.get("foreign")) or nd.get("stored"):
@@ -146,6 +150,8 @@ def spec_classes(spec):
         cl.append("foreign_source")
     if spec.get("store_repr"):
         cl.append("store_reprs:" + spec["store_repr"])
+    if any(nd.get("litsrc") for nd in nodes):
+        cl.append("source_is_LiteralSource_subclass")
     if spec.get("hoist"):
         cl.append("creation_order_not_topological")
     if any(nd.get("falsy") for nd in nodes):
